@@ -2,6 +2,7 @@
 //! `harness run` reads cases on stdin (`<id> <family> <tokens…>`) and prints `<id> <result>`.
 mod fam_asm;
 mod fam_crypto;
+mod fam_sign;
 mod fam_types;
 mod fam_vm;
 mod gen_short;
@@ -30,6 +31,9 @@ fn run_line(line: &str) -> String {
             return r;
         }
         if let Some(r) = fam_types::run_oracle(fam, &mut t) {
+            return r;
+        }
+        if let Some(r) = fam_sign::run(fam, &mut t) {
             return r;
         }
         if let Some(r) = fam_crypto::run(fam, &mut t) {
